@@ -12,8 +12,8 @@ PROP = {
             "followed by the end tag, nothing); a case is "
             "non-trivial when it yields more than one token; distinct by case line. val: the value universe and random value "
             "trees, encoded, realised as Go values, reified and re-encoded (a codec round trip; nothing is printed). verbatim "
-            "(default delimiters; every case a render line compared with the model): six fixed inputs (the bodies of the repaired "
-            "deviation) and random templates of five shapes in turn - text+raw block+text, text+comment block+text, 2..4 "
+            "(default delimiters; every case a render line compared with the model): ten fixed inputs (bodies of the repaired "
+            "deviation: an opening delimiter left unclosed inside a raw / comment body, also after the OTHER block's end tag; shard 0) and random templates of five shapes in turn - text+raw block+text, text+comment block+text, 2..4 "
             "raw/comment blocks with delimiter-free text between them, a source without `{{` and `{%`, `[{{ s }}]` with s a "
             "string / []byte / drop of a string holding tag-like text, arbitrary bytes and HTML/URL metacharacters; a body is up "
             "to 5 (4) tag-like bits (objects, tags, trim markers, LONE `{{` `}}` `{%` `%}`, syntax errors, `{% raw %}`, "
@@ -37,26 +37,26 @@ PROP = {
 TEXT = {
     "text": ('Theorems for every delimiter set, source and start line: token sources concatenate to the input (scan_partition), '
               'located tokens carry start line + preceding newlines (scan_lines, scan_line_at), a source in which no delimiter '
-              'opens is one text token (scan_no_open_delim). Render level: a text node renders to exactly its bytes '
-              '(text_renders_itself), a raw node writes the concatenation of its slices (raw_verbatim) and inside a raw block the '
+              'opens is one text token, none when the source is empty (scan_no_open_delim). Render level (Proofs.C05Render): a template that is one text node renders to exactly its bytes '
+              '(text_renders_itself), a template that is one raw node to the concatenation of its slices (raw_verbatim; both: what a fault-free writer has received) and inside a raw block the '
               'parser keeps the source of every token that is not the endraw tag (raw_body_kept), inside a comment block the parser '
               'drops every token that is not the endcomment tag without handing it to the expression checker '
-              '(comment_body_skipped), a string value is written as one write of its bytes without escaping (string_value_exact, '
-              'bytes/drop variants), nil prints nothing. No hyphen of a NEIGHBOUR reaches into a value or a raw body (Proofs.C05Verbatim; '
-              'objects and raw blocks write through trimWriter.WriteVerbatim since the repair fixes/verbatim-output-not-trimmed, modelled as '
-              'the operations Write "", Write b, Flush): from EVERY state of the trim writer - any text pending, a right trim armed or not - '
-              'an object whose value is printed as at least one chunk, resp. a raw node with at least one slice, lets the pending text out '
+              '(comment_body_skipped; both about one step of the block parser), a string value is written as one write of its bytes without escaping (string_value_exact, '
+              'bytes_value_exact, drop_string_value_exact for []byte and a drop of a string: the standard output layer), nil prints nothing (nil_prints_nothing). No hyphen of a NEIGHBOUR reaches into a value or a raw body (Proofs.C05Verbatim; '
+              'objects, raw blocks and what a tag writes go through trimWriter.WriteVerbatim since the repair fixes/verbatim-output-not-trimmed.patch = /repo 4126d59, modelled as '
+              'the operations Write "", Write b, Flush; all on a writer that does not fail): from EVERY state of the trim writer - any text pending, a right trim armed or not - '
+              'an object whose expression evaluates without error (not to nil under strict variables) and whose value is printed as at least one chunk, resp. a raw node with at least one slice, lets the pending text out '
               'unchanged, then its own bytes unchanged, and leaves nothing pending and no trim armed (object_writes_value_verbatim, '
               'raw_writes_body_verbatim; string_value_written_verbatim for a variable bound to a string); for ALL trees A and B, whatever '
               'hyphens they hold, every context and start state: if A ends normally having written outA and leaving the text p pending, the '
-              'sequence A ++ [object] ++ B puts out outA, p unchanged, the bytes of the value unchanged and contiguous, and then exactly what B '
+              'sequence A ++ [such an object] ++ B puts out outA, p unchanged, the bytes of the value unchanged and contiguous, and then exactly what B '
               'renders from an EMPTY trim writer with the variables A left, and ends as B ends (value_bytes_not_trimmed; raw_bytes_not_trimmed '
               'for a raw node); for whole templates: Render of A ++ [object] ++ B is the output of A rendered on its own, the bytes of the '
               'value, the output of B rendered on its own from the variables A left (value_bytes_not_trimmed_root, raw_bytes_not_trimmed_root); '
-              'directly between a right and a left trim marker (string_value_between_hyphens, raw_body_between_hyphens); from source bytes, for '
-              'every value layer, every output layer that prints a string as its bytes, file system and environment binding x and s to ANY '
+              'directly between a right and a left trim marker (string_value_between_hyphens - a variable bound to a string, an output layer that prints a string as one write of its bytes -, raw_body_between_hyphens); from source bytes (default configuration, start line 1), for '
+              'every value layer, every output layer that prints a string as one write of its bytes, file system, include depth and environment binding x and s to ANY '
               'byte strings xv and sv: `{{ x -}}{{ s }}` renders xv ++ sv, `{{ s }}{{- x }}` renders sv ++ xv, `{{ x -}}{% raw %}  y{% endraw %}` '
-              'renders xv, two blanks, y (value_after_right_hyphen_source, value_before_left_hyphen_source, raw_after_right_hyphen_source; the '
+              'renders xv, two blanks, y and `{% raw %}y  {% endraw %}{{- x }}` renders y, two blanks, xv (value_after_right_hyphen_source, value_before_left_hyphen_source, raw_after_right_hyphen_source; the '
               'three former counterexamples are evaluated examples with the standard layers). End to end, about the whole pipeline `run` (tokenizer, block parser, '
               'compiler, renderer, fault-free writer) for every value layer, configuration, file system, start line and '
               'environment: a source in which neither configured opening delimiter occurs renders to exactly itself, the empty '
@@ -95,14 +95,15 @@ TEXT = {
     "design_ref": 'DESIGN.md 6 C05',
     "note": NOTE + ('The deviation K-C05-value-trimmed-by-neighbour-hyphen / K-C05-raw-trimmed-by-neighbour-hyphen (the trim writer trims the '
               'output stream, so the hyphen of a NEIGHBOUR stripped white space at the edge of a value or of a raw body) is repaired by '
-              'fixes/verbatim-output-not-trimmed (ObjectNode.render and RawNode.render write through trimWriter.WriteVerbatim); the theorems of '
+              'fixes/verbatim-output-not-trimmed.patch = /repo 4126d59 (ObjectNode.render, RawNode.render and TagNode.render write through trimWriter.WriteVerbatim / verbatimWriter); the theorems of '
               'Proofs.C05Verbatim state what it made false. They need at least one chunk / slice: a nil value and a raw block without body write '
               'nothing, and then a pending right trim stays pending for what follows (nothing of theirs can be stripped). An EMPTY string value is one empty chunk: it drops a '
-              'pending right trim like every value. The source-level forms are three fixed templates with arbitrary bound strings; for arbitrary '
+              'pending right trim like every value. The source-level forms are four fixed templates (three theorems; default delimiters, start line 1) with arbitrary bound strings; for arbitrary '
               'templates the statement is the tree-level one. The deviation recorded earlier (K-C05-raw-unclosed-delimiter, K-C05-comment-unclosed-delimiter: an opening delimiter '
               'left unclosed inside a raw/comment body took the end tag\'s closer) is repaired in /repo by e30377e '
-              '(fixes/raw-comment-lexical); its inputs are six fixed cases of the verbatim stream on every run, evaluated examples in '
-              'Proofs/C05Spell.lean, and bodies of the same kind are enumerated by the scan family. Remaining side conditions of the byte-level theorems '
+              '(fixes/raw-comment-lexical.patch); bodies of its kind are ten fixed cases of the verbatim stream on every run, five evaluated examples in '
+              'Proofs/C05Spell.lean (four under the default delimiters, one under << >> [ ]), and bodies of the same kind are enumerated by the scan family. '
+              'known_findings.json lists the four C05 entries as fixed; none is open. Remaining side conditions of the byte-level theorems '
               '(raw_body_bytes_emitted, comment_body_bytes_dropped), exactly: GoodDelims (four non-empty strings of ASCII bytes that are '
               'not white space, word characters or `-`, neither opening delimiter a prefix of the other); CleanItem of the two tags, which are taken without '
               'arguments, the opening tag without left hyphen, the end tag without right hyphen (`{% raw x %}`, `{%- raw %}`, '
